@@ -49,7 +49,7 @@ class ExprMixin:
 
     def ev(self, frame, st, kind, node, **kw) -> Event:
         e = Event(kind=kind, site=frame.site(node), node=node, func=frame.func, recv_cls=frame.recv_cls,
-                  facts=st.facts, ctrl=st.ctrl, **kw)
+                  facts=st.facts, ctrl=st.ctrl, xctrl=st.xctrl, **kw)
         frame.events.append(e)
         return e
 
@@ -376,12 +376,12 @@ class ExprMixin:
 
     def x_Yield(self, n, st, frame):
         v = self.eval(n.value, st, frame) if n.value is not None else t("None")
-        frame.yields.append(v.with_deps(st.ctrl))
+        frame.yields.append(v.with_deps(st.ctrl | st.xctrl))
         return TOP
 
     def x_YieldFrom(self, n, st, frame):
         v = self.eval(n.value, st, frame)
-        frame.yields.append(self.iterate(v, n.value, st, frame).with_deps(st.ctrl))
+        frame.yields.append(self.iterate(v, n.value, st, frame).with_deps(st.ctrl | st.xctrl))
         return TOP
 
     def x_Await(self, n, st, frame):
